@@ -28,7 +28,7 @@ RULE = (
 COMPONENTS_REAL = ["pdfminer.pdfparser.PDFParser.do_keyword (stream branch)", "pdfminer.pdftypes.PDFStream.get_filters/decode", "pdfminer.lzw / ascii85 / runlength / zlib", "pdfminer.utils.apply_png_predictor / apply_tiff_predictor", "pdfminer.pdfdocument.getobj"]
 COMPONENTS_STUB = ["file object: io.BytesIO over SimWriter output", "BUFSIZ chunk seam", "eviction wrapper", "encoders: sim.encoders (independent)"]
 ASSUMPTIONS = ["supported predictor geometry: PNG bits 8 or 1, TIFF bits 8; colours 1..4; columns 1..40", "LZW with default EarlyChange=1"]
-PROBES = ["damaged data decoded first", "payload of tens of kilobytes", "indirect Length", "indirect Length after stream", "indirect Filter", "indirect DecodeParms", "payload contains endstream", "stream EOL crlf", "lzw beyond 9 bits", "lzw table reset", "png predictor", "png predictor colours>1", "png predictor 1-bit", "tiff predictor", "chain length 3", "abbreviated filter name", "boundary placed at stream keyword", "eviction happened"]
+PROBES = ["run under settings.STRICT", "damaged data decoded first", "payload of tens of kilobytes", "indirect Length", "indirect Length after stream", "indirect Filter", "indirect DecodeParms", "payload contains endstream", "stream EOL crlf", "lzw beyond 9 bits", "lzw table reset", "png predictor", "png predictor colours>1", "png predictor 1-bit", "tiff predictor", "chain length 3", "abbreviated filter name", "boundary placed at stream keyword", "eviction happened"]
 TIERS = {
     "quick": {"batches": 16, "runs": 1500, "budget_s": 45},
     "thorough": {"batches": 128, "runs": 3000, "budget_s": 900},
@@ -133,6 +133,23 @@ def gen_predictor(t, ctx):
 
 
 def run(tape, ctx, item=None):
+    # the library's strict setting is a knob of the run: well-formed input reads the same under it
+    if tape.coin(8, 100, "knob.strict"):
+        from pdfminer import settings as _settings
+
+        ctx.probe("run under settings.STRICT")
+        _settings.STRICT = True
+        try:
+            out = run_inner(tape, ctx, item)
+        finally:
+            _settings.STRICT = False
+        for d in out.devs:
+            d.msg = "under settings.STRICT: " + d.msg
+        return out
+    return run_inner(tape, ctx, item)
+
+
+def run_inner(tape, ctx, item=None):
     t = tape
     devs = []
     payload, adversarial = gen_payload(t, ctx)
